@@ -174,7 +174,11 @@ def answer (line : String) : String :=
     match vtOf? vt, parseRaw terms, (csv order).mapM parseLabel?, parseChoices choices, vtOf? respVt, (csv respVars).mapM parseLabel?,
           (csv names).mapM fromHex?, parseInfo info, (if rows = "-" then some [] else (rows.splitOn ";").mapM parseRecord) with
     | some vt, some raw, some order, some choices, some rvt, some rv, some names, some info, some rows =>
-      let resp : SampleSetM := { vars := rv, names := names, rows := rows, info := info, vt := rvt }
+      -- the fields of the child that are carried over (`name not in {'sample', 'energy'}`, regenerated from the source)
+      let carried : List Nat := (List.range names.length).filter fun i => !(Generated.HocLayout.notCarried.contains (names.getD i ""))
+      let resp : SampleSetM := { vars := rv, names := carried.map (fun i => names.getD i ""),
+                                 rows := rows.map (fun r => { r with vectors := carried.map (fun i => r.vectors.getD i 0) }),
+                                 info := info, vt := rvt }
       let show' (r : Except HocErr OutSet) := match r with
         | .ok o => showOutSet o
         | .error e => showHocErr e
